@@ -284,6 +284,11 @@ func ruleFIFO(fields ...string) func(c *Ctx) {
 					top = o
 				}
 				form := queueForm(st, f)
+				if form == "append:other" {
+					if f2 := p.requeueThroughParam(st, f); f2 != "" {
+						form = f2
+					}
+				}
 				pos := p.InstrPos(st)
 				what := "queue " + q[strings.LastIndex(q, ".")+1:] + " updated in FIFO form (" + top + ")"
 				if allowed[top] == nil {
@@ -517,6 +522,12 @@ func ruleRec(c *Ctx) {
 							ok = true
 						}
 					}
+					// ... or emptied through a take-all helper called before the loop
+					for _, c2 := range callsIn(g) {
+						if sf := c2.Common().StaticCallee(); sf != nil && p.takesField(sf, fEQ) && dominates(c2, call) {
+							ok = true
+						}
+					}
 				}
 			}
 		}
@@ -699,4 +710,74 @@ func unlocksFirst(g *ssa.Function, a *types.Var) bool {
 		}
 	}
 	return false
+}
+
+// requeueThroughParam: `q.items = append(rest, q.items...)` in a wrapper
+// method, where every caller passes `snapshot[i+1:]` of a snapshot taken from
+// the same queue (a load of the field or the result of its take-all helper):
+// the re-queue form, seen through the method's parameter.
+func (p *Prog) requeueThroughParam(st *ssa.Store, f *types.Var) string {
+	call, ok := st.Val.(*ssa.Call)
+	if !ok || len(call.Call.Args) < 2 {
+		return ""
+	}
+	if lf, _ := fieldLoad(call.Call.Args[1]); lf != f {
+		return ""
+	}
+	prm, ok := call.Call.Args[0].(*ssa.Parameter)
+	if !ok {
+		return ""
+	}
+	fn := st.Parent()
+	idx := -1
+	for i, q := range fn.Params {
+		if q == prm {
+			idx = i
+		}
+	}
+	node := p.CG.Nodes[fn]
+	if idx < 0 || node == nil {
+		return ""
+	}
+	n := 0
+	for _, e := range node.In {
+		if e.Site == nil || e.Site.Common().StaticCallee() != fn {
+			continue
+		}
+		args := e.Site.Common().Args
+		if idx >= len(args) {
+			return ""
+		}
+		sl, ok := args[idx].(*ssa.Slice)
+		if !ok || sl.Low == nil || sl.High != nil {
+			return ""
+		}
+		src := sl.X
+		if u, ok := src.(*ssa.UnOp); ok && u.Op == token.MUL {
+			if al, ok := u.X.(*ssa.Alloc); ok {
+				for _, r := range *al.Referrers() {
+					if s2, ok := r.(*ssa.Store); ok && s2.Addr == ssa.Value(al) {
+						src = s2.Val
+					}
+				}
+			}
+		}
+		okSrc := false
+		if lf, _ := fieldLoad(src); lf == f {
+			okSrc = true
+		}
+		if c2, ok := src.(*ssa.Call); ok {
+			if sf := c2.Call.StaticCallee(); sf != nil && p.takesField(sf, f) {
+				okSrc = true
+			}
+		}
+		if !okSrc {
+			return ""
+		}
+		n++
+	}
+	if n > 0 {
+		return "requeue"
+	}
+	return ""
 }
